@@ -60,15 +60,17 @@ func rawSpec(marker string) *specs.Spec {
 }
 
 var faultAlphabet = map[string][]string{
-	"creat":     {"EMFILE", "ENOSPC", "EACCES"},
-	"write":     {"ENOSPC@0", "ENOSPC@1", "ENOSPC@half", "ENOSPC@all-but-1", "EIO@half"},
-	"close":     {"EIO"},
+	// per call, the errors its manual page lists for a regular file on a local file system and
+	// that the code could tell apart (errors.Is on a specific errno selects a different path)
+	"creat":     {"EMFILE", "ENOSPC", "EACCES", "EROFS", "EEXIST", "EDQUOT"},
+	"write":     {"ENOSPC@0", "ENOSPC@1", "ENOSPC@half", "ENOSPC@all-but-1", "EIO@half", "EDQUOT@half", "EFBIG@1", "EINTR@0"},
+	"close":     {"EIO", "EINTR", "ENOSPC"},
 	"open":      {"EMFILE", "EACCES"},
 	"opendir":   {"EMFILE", "EACCES"},
-	"renameat2": {"EACCES", "EXDEV", "ENOSPC"},
-	"rename":    {"EACCES", "EXDEV"},
-	"mkdir":     {"EACCES", "ENOSPC"},
-	"unlink":    {"EACCES"},
+	"renameat2": {"EACCES", "EXDEV", "ENOSPC", "EBUSY", "EPERM", "EROFS", "EINVAL", "ENOSYS", "EEXIST", "ENOENT", "EDQUOT"},
+	"rename":    {"EACCES", "EXDEV", "EBUSY", "EPERM", "EROFS"},
+	"mkdir":     {"EACCES", "ENOSPC", "EROFS", "EEXIST"},
+	"unlink":    {"EACCES", "EBUSY", "EPERM", "EROFS"},
 }
 
 func opKind(op string) string {
